@@ -69,7 +69,7 @@ def rule_I(ck, lib, sk):
             if xn.get("k") == "Path" and xn["res"].get("path") == PE + "Incomplete":
                 ctor_sites += 1
                 ck.judge(b["def"] in sk.fns or hir.base_path(b["def"]) in ctx.inline_helpers(lib), "C12-I", "ctor-site:%s" % b["def"].split("::")[-1], "constructed inside a parser", "ParseError::Incomplete constructed outside the parser functions: %s" % b["def"], hir.loc(xn))
-    ck.floor("C12-I", "expressions constructing Incomplete", ctor_sites, 4)
+    ck.floor("C12-I", "expressions constructing Incomplete", ctor_sites, 3)
     # converse: an end-of-input test of the input leads to Incomplete (never to a soft error / success)
     m = 0
     for path, f in sorted(sk.fns.items()):
@@ -83,7 +83,7 @@ def rule_I(ck, lib, sk):
                 ok = v is not None and v[0] == "ctor" and v[1] == ERR and v[2][0] == ("ctor", PE + "Incomplete", ())
                 ck.judge(ok, "C12-I", "%s:eoi-test#%d" % (path.split("::")[-1], i), "%s -> Incomplete" % fact,
                          "end-of-input test (%s) does not lead to Incomplete but to %s %s" % (fact, x.kind, show_term(v) if v else ""))
-    ck.floor("C12-I", "end-of-input tests", m, 3)
+    ck.floor("C12-I", "end-of-input tests", m, 2)
 
 
 def rule_D(ck, lib, sk):
@@ -124,7 +124,7 @@ def rule_D(ck, lib, sk):
                                     ok = False
                 ck.judge(ok, "C12-D", "%s:take_while#%d" % (name, n), "class contains 10 but a mandatory %s follows on the remainder" % (pid_name(nxt[0]) if nxt else "?"),
                          "take_while with a class containing byte 10 (%s) is not followed by a mandatory tag: it can succeed because the input ended" % bytecls.show_set(cls), t[3])
-    ck.floor("C12-D", "take_while application sites", n, 8)
+    ck.floor("C12-D", "take_while application sites", n, 5)
     peeks = [pk for pk in sk.direct_inspections(exempt=("take_while", "satisfy")) if not pk[1].endswith("::is_empty")]
     ck.judge(not peeks, "C12-D", "parser:no-direct-inspection", "outside the primitives the input is examined only through parser applications",
              "a parser looks at input bytes directly (its verdict may then depend on bytes behind the unit or on where the input ends): %s"
